@@ -55,7 +55,20 @@ def derivative(poly: PolyLike, *diffvars: Union[ndpoly, str, int]) -> ndpoly:
             (exponent[idx] * coefficient.T).T
             for exponent, coefficient in zip(exponents, poly.coefficients)
         ]
-        exponents[:, idx] -= 1
+        # terms free of the variable vanish; keep them out so that the
+        # unsigned exponents never wrap below zero
+        keep = exponents[:, idx] > 0
+        if numpy.any(keep):
+            exponents = exponents[keep]
+            coefficients = [
+                coefficient
+                for coefficient, keep_ in zip(coefficients, keep)
+                if keep_
+            ]
+            exponents[:, idx] -= 1
+        else:
+            exponents = numpy.zeros((1, exponents.shape[1]), dtype=exponents.dtype)
+            coefficients = [numpy.zeros_like(coefficients[0])]
         assert not numpy.any(exponents < 0)
 
         poly = numpoly.ndpoly.from_attributes(
